@@ -517,7 +517,11 @@ fn hunk_oracle_cases(rep: &mut Report, rng: &mut Rng, n: u64) {
             // a hunk that may not apply at all
             hunks.push(PatchHunk { before: vec![rng.pick(&["zz", "a", "b"]).to_string()], after: vec!["Q".into()] });
         }
-        let text = format!("{}\n", original.join("\n"));
+        // line-ending style and trailing newline of the original, at random
+        let crlf = rng.chance(1, 3);
+        let trailing = !rng.chance(1, 4);
+        let term = if crlf { "\r\n" } else { "\n" };
+        let text = format!("{}{}", original.join(term), if trailing { term } else { "" });
         std::fs::write(root.join("f.txt"), &text).unwrap();
         let mut patch = String::from("*** Begin Patch\n*** Update File: f.txt\n");
         for h in &hunks {
@@ -565,6 +569,25 @@ fn hunk_oracle_cases(rep: &mut Report, rng: &mut Rng, n: u64) {
             Ok(res) => {
                 rep.count("hunk_oracle_applied");
                 let lines: Vec<String> = res.lines().map(|l| l.to_string()).collect();
+                // style and trailing newline (no model involved): every line here is non-empty and
+                // free of CR / LF, so each CR or LF in the result is part of a terminator
+                if !lines.is_empty() {
+                    let n_lf = res.matches('\n').count();
+                    let n_cr = res.matches('\r').count();
+                    let n_crlf = res.matches("\r\n").count();
+                    let style_known = original.len() >= 2 || trailing; // the original had at least one terminator
+                    let style_ok = if !style_known { true } else if crlf { n_cr == n_lf && n_crlf == n_lf } else { n_cr == 0 };
+                    if !style_ok {
+                        rep.oracle_failure("C12|update-changed-line-ending-style", &format!("original terminated with {} throughout; the result has {n_lf} LF, {n_cr} CR, {n_crlf} CRLF", if crlf { "CRLF" } else { "LF" }), json!({"case": case, "crlf": crlf, "trailing_newline": trailing, "result": res}));
+                    }
+                    if res.ends_with('\n') != trailing || n_lf != lines.len() - 1 + trailing as usize {
+                        rep.oracle_failure("C12|update-changed-trailing-newline", &format!("original {} a final newline; the result {} ({} terminators for {} lines)", if trailing { "had" } else { "had no" }, if res.ends_with('\n') { "ends with one" } else { "has none" }, n_lf, lines.len()), json!({"case": case, "crlf": crlf, "trailing_newline": trailing, "result": res}));
+                    }
+                    rep.count(if crlf { "hunk_oracle_crlf" } else { "hunk_oracle_lf" });
+                    if !trailing {
+                        rep.count("hunk_oracle_no_final_newline");
+                    }
+                }
                 if !candidates.iter().any(|c| *c == lines) {
                     rep.oracle_failure("C12|update-is-not-an-application-of-its-hunks", &format!("the update succeeded with {lines:?}, which is not an in-order application of the hunks to the original lines"), case);
                 }
